@@ -276,5 +276,7 @@ pub fn run(tier: Tier, seed: u64) -> i32 {
     report.sample("round", json!({"count": 3, "round": 3, "expected": "None (no coordinates), not a panic"}));
     report.space("all 1,457 card shapes of at most 255 cells x 5 digit counts; all coordinates; all rounds 0..=255");
     report.assume("seeds and session keys come from alphabets; digit_count 0 (a card with no digits) is not a card and is excluded");
+    report.set("exhaustive", json!(false));
+    report.cap_hit("all shapes, coordinates and rounds are closed; seeds, contents and keys are alphabets");
     report.finish()
 }
